@@ -32,6 +32,8 @@ structure Cfg where
   n : Nat                 -- number of input modules
   nout : Nat              -- number of output modules
   outOf : Nat → Nat       -- the output an input is attached to
+  omitUnch : Bool := false  -- `omit_unchanged_within`: 0 (false) or longer than the whole history (true): an assignment of
+                            -- the value a parameter already has sends no update then
 
 inductive Ev
   | cb (o : Nat) (c : Option Nat)     -- update of `controlled_by` of output `o`
@@ -41,6 +43,8 @@ inductive Ev
 structure St where
   cb : Nat → Option Nat
   act : Nat → Bool
+  cbP : Nat → Bool := fun _ => false    -- the next update of `controlled_by` of output `o` cannot be omitted (never announced / error)
+  actP : Nat → Bool := fun _ => false   -- the same for `control_active` of input `i`
   evs : List Ev := []
   ok : Bool := true
 
@@ -51,7 +55,8 @@ def inputsOf (cfg : Cfg) (o : Nat) : List Nat := (List.range cfg.n).filter (fun 
 
 /-- `deactivate_control` of input `i` -/
 def deactivate (i : Nat) (s : St) : St :=
-  if s.act i then emit { s with act := fun j => if j = i then false else s.act j } (.act i false) else s
+  if s.act i then emit { s with act := fun j => if j = i then false else s.act j,
+                                actP := fun j => if j = i then false else s.actP j } (.act i false) else s
 
 /-- the loop over an `inputCallbacks` registry (registration order), skipping `skip` -/
 def deactivateAll (skip : Option Nat) : List Nat → St → St
@@ -59,20 +64,25 @@ def deactivateAll (skip : Option Nat) : List Nat → St → St
   | i :: is, s => deactivateAll skip is (if skip = some i then s else deactivate i s)
 
 /-- `out.controlled_by = c` -/
-def setCb (o : Nat) (c : Option Nat) (s : St) : St :=
-  emit { s with cb := fun o' => if o' = o then c else s.cb o' } (.cb o c)
+def setCb (cfg : Cfg) (o : Nat) (c : Option Nat) (s : St) : St :=
+  { s with cb := fun o' => if o' = o then c else s.cb o', cbP := fun o' => if o' = o then false else s.cbP o',
+           evs := if cfg.omitUnch && s.cb o == c && !s.cbP o then s.evs else s.evs ++ [.cb o c] }
+
+/-- `set_control_active(True)` of input `k` -/
+def setActive (cfg : Cfg) (k : Nat) (s : St) : St :=
+  { s with act := fun j => if j = k then true else s.act j, actP := fun j => if j = k then false else s.actP j,
+           evs := if cfg.omitUnch && s.act k && !s.actP k then s.evs else s.evs ++ [.act k true] }
 
 /-- `activate_control` of input `k` -/
 def activate (cfg : Cfg) (k : Nat) (s : St) : St :=
   let s1 := deactivateAll (some k) (inputsOf cfg (cfg.outOf k)) s
-  let s2 := setCb (cfg.outOf k) (some k) s1
-  emit { s2 with act := fun j => if j = k then true else s2.act j } (.act k true)
+  setActive cfg k (setCb cfg (cfg.outOf k) (some k) s1)
 
 /-- `self_controlled` of output `o` -/
 def selfControlled (cfg : Cfg) (o : Nat) (s : St) : St :=
   match s.cb o with
   | none => s
-  | some _ => deactivateAll none (inputsOf cfg o) (setCb o none s)
+  | some _ => deactivateAll none (inputsOf cfg o) (setCb cfg o none s)
 
 inductive Op
   | writeIn (k : Nat) (guarded : Bool)   -- client `change in_k:target`; the body calls activate_control (guarded: only if not active)
